@@ -29,7 +29,7 @@ struct Op { const char *name; std::function<bool(KSI_CTX *, St &)> setup; std::f
 static std::vector<Op> g_ops; static std::vector<Result> g_ref; static std::vector<uint64_t> g_allocs; static std::vector<bool> g_usable;
 
 // ---- fixed inputs ------------------------------------------------------------------------------------------------------
-static Bytes g_sigA, g_sigB, g_sigRfc, g_aggrPdu, g_extPdu, g_pubFile, g_signedPubFile, g_userPubFile; static Sig g_modelA; static Sig g_modelB; static Verdict g_vB; static std::string g_pubString;
+static Bytes g_sigA, g_sigB, g_sigRfc, g_sigKey, g_aggrPdu, g_extPdu, g_pubFile, g_signedPubFile, g_userPubFile; static Sig g_modelA; static Sig g_modelB; static Verdict g_vB; static std::string g_pubString;
 static const std::string kLogin = "anon", kKey = "anon"; static Bytes keyB() { return Bytes(kKey.begin(), kKey.end()); }
 static Sig fixedSig(uint8_t seed, int chains, int cal, int pub, int auth, int rfc, uint64_t salt) {
     uint8_t st = seed; Chooser ch{[&](uint32_t n) { st = (uint8_t)(st * 37 + 11); return n ? st % n : 0u; }, [&]() { st = (uint8_t)(st * 37 + 11); return st; }};
@@ -185,6 +185,28 @@ static void buildCatalogue() {
             r.code = firstErr; if (!firstErr) for (auto k : model) r.out += num((long long)k) + ","; }
         KSI_IntegerList_free(l); return r; }});
     g_ops.push_back({"signature-verify-data-hash", withSigA, [](KSI_CTX *ctx, St &st) { Result r; KSI_DataHash *h = nullptr; Bytes doc = g_modelA.docHash(); r.code = KSI_DataHash_fromImprint(ctx, doc.data(), doc.size(), &h); if (r.code == KSI_OK) r.code = KSI_Signature_verifyWithPolicy(st.sig, h, 0, KSI_VERIFICATION_POLICY_INTERNAL, nullptr); KSI_DataHash_free(h); return r; }});
+    g_ops.push_back({"extender-config", none, [](KSI_CTX *ctx, St &) { Result r; resetSim(); g_srv = Server(); g_srv.respond = [](const Bytes &req, int) -> Bytes { ReqInfo ri = parseRequest(req); if (!ri.ok || ri.isAggr) return Bytes(); Header h; h.login = "ext"; return sealV2(0x321, h, {extConfPayload(true, 50, {"ksi+tcp://e1.example.test:1"}, true, 1400000000, true, 1500000000)}, keyB(), 1); }; g_srv.attach();
+        KSI_CTX_setExtender(ctx, "ksi+http://ext.example.test/gt-extendingservice", kLogin.c_str(), kKey.c_str()); KSI_Config *cfg = nullptr; r.code = KSI_receiveExtenderConfig(ctx, &cfg); if (r.code == KSI_OK) { KSI_Integer *mr = nullptr, *cf = nullptr; KSI_Config_getMaxRequests(cfg, &mr); KSI_Config_getCalendarFirstTime(cfg, &cf); r.out = num((long long)KSI_Integer_getUInt64(mr)) + "/" + num((long long)KSI_Integer_getUInt64(cf)); } KSI_Config_free(cfg); return r; }});
+    g_ops.push_back({"verify-key-based", [](KSI_CTX *ctx, St &st) { HeapBuf fb(g_userPubFile); return parseInto(ctx, g_sigKey, &st.sig) && KSI_PublicationsFile_parse(ctx, fb.p, fb.n, &st.pf) == KSI_OK; }, [verdictOf](KSI_CTX *ctx, St &st) {
+        KSI_VerificationContext vc; KSI_VerificationContext_init(&vc, ctx); vc.signature = st.sig; vc.userPublicationsFile = st.pf; KSI_PolicyVerificationResult *res = nullptr; int c = KSI_SignatureVerifier_verify(KSI_VERIFICATION_POLICY_KEY_BASED, &vc, &res); Result r = verdictOf(c, res);
+        KSI_PolicyVerificationResult_free(res); vc.signature = nullptr; vc.userPublicationsFile = nullptr; KSI_VerificationContext_clean(&vc); return r; }});
+    g_ops.push_back({"async-sign-http", none, [](KSI_CTX *ctx, St &) { Result r; resetSim(); attachAggregator(g_srv); KSI_AsyncService *as = nullptr; r.code = KSI_SigningAsyncService_new(ctx, &as); if (r.code == KSI_OK) r.code = KSI_AsyncService_setEndpoint(as, "ksi+http://a1.example.test:8080/gt-signingservice", kLogin.c_str(), kKey.c_str());
+        KSI_AggregationReq *rq = nullptr; KSI_DataHash *dh = nullptr; KSI_AsyncHandle *h = nullptr; if (r.code == KSI_OK) r.code = KSI_AggregationReq_new(ctx, &rq); if (r.code == KSI_OK) { dh = dataHash(ctx, 40); if (!dh) r.code = KSI_OUT_OF_MEMORY; } if (r.code == KSI_OK) { r.code = KSI_AggregationReq_setRequestHash(rq, dh); if (r.code == KSI_OK) dh = nullptr; }
+        if (r.code == KSI_OK) { r.code = KSI_AsyncAggregationHandle_new(ctx, rq, &h); if (r.code == KSI_OK) rq = nullptr; } if (r.code == KSI_OK) { r.code = KSI_AsyncService_addRequest(as, h); if (r.code == KSI_OK) h = nullptr; } KSI_AsyncHandle_free(h); KSI_AggregationReq_free(rq); KSI_DataHash_free(dh);
+        bool done = false; for (int round = 0; round < 60 && r.code == KSI_OK && !done; round++) { KSI_AsyncHandle *out = nullptr; size_t w = 0; int e = KSI_AsyncService_run(as, &out, &w); sim::net().now += 1; if (e != KSI_OK) { r.code = e; break; } if (!out) continue; int stt = 0; KSI_AsyncHandle_getState(out, &stt);
+            if (stt == KSI_ASYNC_STATE_RESPONSE_RECEIVED) { KSI_Signature *sg = nullptr; r.code = KSI_AsyncHandle_getSignature(out, &sg); if (r.code == KSI_OK) r.out = sigHex(sg).substr(0, 120); KSI_Signature_free(sg); done = true; } else if (stt == KSI_ASYNC_STATE_ERROR) { int e3 = 0; KSI_AsyncHandle_getError(out, &e3); r.code = e3 ? e3 : KSI_UNKNOWN_ERROR; done = true; } KSI_AsyncHandle_free(out); }
+        if (r.code == KSI_OK && !done) r.code = KSI_NETWORK_RECIEVE_TIMEOUT; KSI_AsyncService_free(as); return r; }});
+    g_ops.push_back({"publications-file-serialize", [](KSI_CTX *ctx, St &st) { HeapBuf fb(g_signedPubFile); return KSI_PublicationsFile_parse(ctx, fb.p, fb.n, &st.pf) == KSI_OK; }, [](KSI_CTX *ctx, St &st) { Result r; char *raw = nullptr; size_t n = 0; r.code = KSI_PublicationsFile_serialize(ctx, st.pf, &raw, &n); if (r.code == KSI_OK) r.out = hx((const unsigned char *)raw, n > 64 ? 64 : n) + "/" + num((long long)n); KSI_free(raw); return r; }});
+    g_ops.push_back({"hash-chain-build-aggregate", none, [](KSI_CTX *ctx, St &) { Result r; KSI_AggregationHashChain *ch = nullptr; KSI_LIST(KSI_HashChainLink) *links = nullptr; KSI_LIST(KSI_Integer) *idx = nullptr; KSI_Integer *v = nullptr; KSI_DataHash *h = nullptr;
+        r.code = KSI_AggregationHashChain_new(ctx, &ch); if (r.code == KSI_OK) r.code = KSI_Integer_new(ctx, 1, &v); if (r.code == KSI_OK) { r.code = KSI_AggregationHashChain_setAggrHashId(ch, v); if (r.code == KSI_OK) v = nullptr; } if (r.code == KSI_OK) r.code = KSI_Integer_new(ctx, 1500000000, &v); if (r.code == KSI_OK) { r.code = KSI_AggregationHashChain_setAggregationTime(ch, v); if (r.code == KSI_OK) v = nullptr; }
+        if (r.code == KSI_OK) { h = dataHash(ctx, 50); if (!h) r.code = KSI_OUT_OF_MEMORY; } if (r.code == KSI_OK) { r.code = KSI_AggregationHashChain_setInputHash(ch, h); if (r.code == KSI_OK) h = nullptr; } if (r.code == KSI_OK) r.code = KSI_HashChainLinkList_new(&links);
+        for (int i = 0; i < 4 && r.code == KSI_OK; i++) { KSI_HashChainLink *l = nullptr; KSI_DataHash *sh = nullptr; r.code = KSI_HashChainLink_new(ctx, &l); if (r.code == KSI_OK) r.code = KSI_HashChainLink_setIsLeft(l, i & 1); if (r.code == KSI_OK) { sh = dataHash(ctx, 60 + i); if (!sh) r.code = KSI_OUT_OF_MEMORY; } if (r.code == KSI_OK) { r.code = KSI_HashChainLink_setImprint(l, sh); if (r.code == KSI_OK) sh = nullptr; }
+            if (r.code == KSI_OK && i == 2) { KSI_Integer *lc = nullptr; r.code = KSI_Integer_new(ctx, 3, &lc); if (r.code == KSI_OK) { r.code = KSI_HashChainLink_setLevelCorrection(l, lc); if (r.code != KSI_OK) KSI_Integer_free(lc); } } if (r.code == KSI_OK) { r.code = KSI_HashChainLinkList_append(links, l); if (r.code == KSI_OK) l = nullptr; } KSI_HashChainLink_free(l); KSI_DataHash_free(sh); }
+        if (r.code == KSI_OK) { r.code = KSI_AggregationHashChain_setChain(ch, links); if (r.code == KSI_OK) links = nullptr; } if (r.code == KSI_OK) r.code = KSI_IntegerList_new(&idx); if (r.code == KSI_OK) r.code = KSI_Integer_new(ctx, 0x1a, &v); if (r.code == KSI_OK) { r.code = KSI_IntegerList_append(idx, v); if (r.code == KSI_OK) v = nullptr; } if (r.code == KSI_OK) { r.code = KSI_AggregationHashChain_setChainIndex(ch, idx); if (r.code == KSI_OK) idx = nullptr; }
+        KSI_DataHash *root = nullptr; int lvl = 0; if (r.code == KSI_OK) r.code = KSI_AggregationHashChain_aggregate(ch, 2, &lvl, &root); KSI_uint64_t shape = 0; if (r.code == KSI_OK) r.code = KSI_AggregationHashChain_calculateShape(ch, &shape); if (r.code == KSI_OK) r.out = hex(imprintOf(root)) + "/" + num(lvl) + "/" + num((long long)shape);
+        KSI_DataHash_free(root); KSI_Integer_free(v); KSI_DataHash_free(h); KSI_HashChainLinkList_free(links); KSI_IntegerList_free(idx); KSI_AggregationHashChain_free(ch); return r; }});
+    g_ops.push_back({"error-stack-rendering", none, [](KSI_CTX *ctx, St &) { Result r; KSI_Signature *s = nullptr; unsigned char junk[] = {0x88, 0x00, 0x00, 0x02, 0x01, 0x02}; int e = KSI_Signature_parse(ctx, junk, sizeof junk, &s); KSI_Signature_free(s); char buf[2048]; buf[0] = 0; int err = 0, ext = 0; r.code = KSI_ERR_getBaseErrorMessage(ctx, buf, sizeof buf, &err, &ext); char big[4096]; KSI_ERR_toString(ctx, big, sizeof big);
+        if (r.code == KSI_OK) r.out = num(e != KSI_OK) + "/" + num(err != 0); return r; }});
 }
 
 static Result runClean(size_t oi, uint64_t *allocs) {
@@ -200,6 +222,7 @@ void harness_init() {
       Tlv cr(0x702); cr.add(Tlv::raw(0x01, Bytes{1, 2, 3, 4})); cr.add(Tlv::raw(0x02, pki.s[0].der)); recs.push_back(cr);
       PubRecord pa; pa.data.time = a.cal.pubTime; pa.data.hash = va.calRoot; recs.push_back(pa.toTlv(0x703));
       uint64_t tb = g_modelB.chains[0].aggrTime, pb = tb + 2000; ChainResult crb = calAggregate(coherentCalLinks(tb, pb, 5), g_vB.aggrRoot); PubRecord pbr; pbr.data.time = pb; pbr.data.hash = crb.hash; recs.push_back(pbr.toTlv(0x703));
+      { Sig k = g_modelB; k.auth.certId = Bytes{1, 2, 3, 4}; k.auth.sigType = "1.2.840.113549.1.1.11"; k.auth.sigValue = TestPki::rawSign(pki.s[0].key, k.auth.data.toTlv().enc(), EVP_sha256()); g_sigKey = k.enc(); } // authentication record signed with the listed certificate's key
       static const char m[] = "KSIPUBLF"; Bytes f(m, m + 8); for (auto &r : recs) r.encode(f); Bytes sg = pki.signDetached(pki.s[0], f, {}); Tlv::raw(0x704, sg).encode(f); g_signedPubFile = f; g_userPubFile = f; }
     buildCatalogue();
     for (size_t i = 0; i < g_ops.size(); i++) { uint64_t n1 = 0, n2 = 0; Result r1 = runClean(i, &n1), r2 = runClean(i, &n2); g_ref.push_back(r1); g_allocs.push_back(n1); g_usable.push_back(r1 == r2 && r1.code == KSI_OK && !r1.corrupt && n1 > 0); }
@@ -238,5 +261,5 @@ void harness_exhaustive(int shard, int nshards) {
     uint64_t idx = 0; uint64_t cap = tier() ? 20000 : 2500;
     for (size_t oi = 0; oi < g_ops.size(); oi++) { uint64_t N = g_allocs[oi]; uint64_t stride = N > cap ? (N + cap - 1) / cap : 1; uint64_t cnt = 0;
         for (int mode = 0; mode <= 2; mode += 2) for (uint64_t n = 1; n <= N + 1; n += stride) { cnt++; if ((int)(idx++ % (uint64_t)nshards) != shard) continue; std::vector<uint8_t> e = {(uint8_t)oi, (uint8_t)mode, (uint8_t)(n >> 16), (uint8_t)(n >> 8), (uint8_t)n}; if (runExh(e)) return; }
-        stats().exhaustive[std::string(g_ops[oi].name) + ": allocation index 1.." + num((long long)N) + (stride > 1 ? " (stride " + num((long long)stride) + ")" : "") + " x {single fault, all fail from n on}"] = cnt; }
+        if (shard == 0) stats().exhaustive[std::string(g_ops[oi].name) + ": allocation index 1.." + num((long long)N) + (stride > 1 ? " (stride " + num((long long)stride) + ")" : "") + " x {single fault, all fail from n on}"] = cnt; }
 }
